@@ -24,30 +24,12 @@
 (* sends the next frame, so the fingerprint of request r is the state      *)
 (* right after its own HEADERS frame (C07 treats the concurrent case).     *)
 (***************************************************************************)
-EXTENDS FpUtil
+EXTENDS H2FpOps
 
 CONSTANTS MaxReq,      \* requests per connection
           MaxPrio,     \* bound on captured priority entries
           TrackHist,   \* keep the frame history (for the refinement check)
           MaxHist      \* bound on the history when TrackHist
-
-\* ---- the frame alphabet; concrete wire values live in the harness under the same names
-SettingsFrames == {"S0", "S1", "S2"}
-SettingsOf(f) == CASE f = "S0" -> <<>>                                           \* empty SETTINGS
-                   [] f = "S1" -> << <<1, 65536>>, <<4, 131072>> >>              \* HEADER_TABLE_SIZE, INITIAL_WINDOW_SIZE
-                   [] f = "S2" -> << <<3, 100>>, <<2, 0>>, <<153, 7>> >>         \* order kept; 0x99 is an unknown id
-
-WUFrames == {"W0a", "W0b", "Ws"}
-IncrOf(f) == CASE f = "W0a" -> 15663105 [] f = "W0b" -> 12 [] f = "Ws" -> 5000    \* Ws: on the most recent (closed) stream
-
-PrioFrames == {"P1", "P2", "P3"}
-\* <<stream, exclusive, dependency, weight byte>>
-PrioOf(f) == CASE f = "P1" -> <<3, 0, 0, 200>> [] f = "P2" -> <<5, 1, 3, 100>> [] f = "P3" -> <<7, 0, 0, 0>>
-
-HeaderFrames == {"H1", "H2", "H3"}
-\* pseudo-header order of the block; H2 carries a priority (exclusive, dep 0, weight byte 255); H3 is split over CONTINUATION
-OrderOf(f) == CASE f = "H1" -> <<"m", "a", "s", "p">> [] f = "H2" -> <<"m", "p", "a", "s">> [] f = "H3" -> <<"m", "s", "p", "a">>
-HasPrio(f) == f = "H2"
 
 Ns == <<0, 1, 2, 3, 1000000>>       \* configured limits: 0, fewer / equal / more than captured, "unlimited"
 
@@ -62,15 +44,6 @@ VARIABLES S,       \* md.HTTP2Frames.Settings           (sequence of <<id, val>>
           fp       \* observation: Marshal for every limit in Ns, as the last request saw it
 vars == <<S, hasS, WU, P, H, nreq, acked, hist, fp>>
 
-\* ---------------------------------------------------------------- Marshal, as the code prints it
-SettingStr(s) == ToString(s[1]) \o ":" \o ToString(s[2])
-SPart(s) == JoinStr([k \in 1..Len(s) |-> SettingStr(s[k])], ";")
-WUPart(w) == Pad2(w)                                                           \* fmt "%02d"
-PrioStr(p) == ToString(p[1]) \o ":" \o ToString(p[2]) \o ":" \o ToString(p[3]) \o ":" \o ToString(p[4] + 1)
-PPart(p, n) == LET m == Min(Len(p), n) IN
-               IF m = 0 THEN "0" ELSE JoinStr([k \in 1..m |-> PrioStr(p[k])], ",")
-HPart(h) == JoinStr(h, ",")
-Marshal(s, w, p, h, n) == SPart(s) \o "|" \o WUPart(w) \o "|" \o PPart(p, n) \o "|" \o HPart(h)
 AllN(s, w, p, h) == [k \in 1..Len(Ns) |-> Marshal(s, w, p, h, Ns[k])]
 
 \* ---------------------------------------------------------------- the ideal, from the statement
